@@ -223,6 +223,8 @@ fn command_go(
                 let search_is_running = search_is_running.clone();
                 move || {
                     thread::sleep(time);
+                    #[cfg(daniel729_chess_verif)]
+                    crate::verif_hooks::schedule_point("timer_wakeup");
                     search_is_running.store(false, Relaxed);
                 }
             });
@@ -230,10 +232,14 @@ fn command_go(
     }
 
     let thread = thread::spawn({
+        #[cfg(daniel729_chess_verif)]
+        crate::verif_hooks::schedule_point("before_flag_raise");
         search_is_running.store(true, Relaxed);
         let data_mutex = data_mutex.clone();
         let search_is_running = search_is_running.clone();
         move || {
+            #[cfg(daniel729_chess_verif)]
+            crate::verif_hooks::schedule_point("search_thread_start");
             let mut data = data_mutex.lock().unwrap();
             let (current_game, cache) = data.mut_refs();
             let best_move = get_best_move_until_stop(
@@ -248,6 +254,8 @@ fn command_go(
             } else {
                 println!("bestmove none");
             }
+            #[cfg(daniel729_chess_verif)]
+            crate::verif_hooks::schedule_point("after_bestmove");
 
             search_is_running.store(false, Relaxed);
             *current_game = None;
